@@ -417,6 +417,10 @@ func (w *hWorld) registerSig(t *biscuit.Biscuit) {
 
 // ---------- history generation ----------
 
+// sweepDefaults makes the next generated history start with a builder that uses all the
+// published default symbols (set by the runners for the first history of a run)
+var sweepDefaults bool
+
 func genHistoryHooked(rng *RNG, w *hWorld, nOps int, allowRebuild bool, hook func([]hOp, []string)) ([]hOp, []string) {
 	pg := newProgGen(rng)
 	pg.sigs = []predSig{{"right", []int{KStr, KStr}}, {"owner", []int{KStr}}, {"res", []int{KStr, KInt}}, {"t", []int{KDate, KBytes, KBool}}, {"s", []int{KSet}}, {"user", []int{KInt}}}
@@ -447,6 +451,13 @@ func genHistoryHooked(rng *RNG, w *hWorld, nOps int, allowRebuild bool, hook fun
 		nBu++
 	}
 	newBuilder()
+	if sweepDefaults {
+		// every published default symbol, as a predicate name and as a string constant
+		sweepDefaults = false
+		for k, d := range publishedDefaults {
+			emit(hOp{Kind: "bufact", I: 0, Fact: SPred{Name: d, Terms: []STerm{aStr(publishedDefaults[(k+5)%len(publishedDefaults)]), aInt(int64(k))}}})
+		}
+	}
 	builtBb := map[int]int{}
 	for len(ops) < nOps {
 		r := rng.Intn(100)
@@ -769,6 +780,57 @@ func indepDecode(bs []byte, base []string) ([]SBlock, []string, []uint32, error)
 
 func sblockEqual(a, b SBlock) bool { return blockString(a) == blockString(b) }
 
+// versionGate rewrites the version field of one block of a serialized token (no re-signing is
+// needed: the version is checked when the block is decoded) and expects Unmarshal to refuse
+// everything but version 3.
+func versionGate(res *Result, tok []byte, base []string, r *RNG, hist string) {
+	var c pb.Biscuit
+	if proto.Unmarshal(tok, &c) != nil {
+		return
+	}
+	sbs := append([]*pb.SignedBlock{c.Authority}, c.Blocks...)
+	for _, pos := range []int{0, len(sbs) / 2, len(sbs) - 1} {
+		for _, v := range []int64{-1, 0, 1, 2, 3, 4, 5, 1<<32 - 1} { // -1 = field absent
+			var c2 pb.Biscuit
+			proto.Unmarshal(tok, &c2)
+			sb := append([]*pb.SignedBlock{c2.Authority}, c2.Blocks...)[pos]
+			var b pb.Block
+			if proto.Unmarshal(sb.Block, &b) != nil {
+				return
+			}
+			if v < 0 {
+				b.Version = nil
+			} else {
+				u := uint32(v)
+				b.Version = &u
+			}
+			nb, err := proto.Marshal(&b)
+			if err != nil {
+				continue
+			}
+			sb.Block = nb
+			mb, err := proto.Marshal(&c2)
+			if err != nil {
+				continue
+			}
+			baseTbl := datalog.SymbolTable(append([]string{}, base...))
+			_, uerr := (&biscuit.Unmarshaler{Symbols: &baseTbl}).Unmarshal(mb)
+			res.Dist("version-gate")
+			decl := fmt.Sprint(v)
+			if v < 0 {
+				decl = "absent (schema default 0)"
+			}
+			rep := map[string]interface{}{"history": hist, "block": pos, "declared_version": decl, "token": fmt.Sprintf("%x", mb)}
+			if v != 3 && uerr == nil {
+				res.Violate("unsupported-version-accepted", fmt.Sprintf("block %d declares schema version %s and Unmarshal accepts the token", pos, decl), rep)
+			}
+			if v == 3 && uerr != nil {
+				res.Violate("version-3-rejected", "rewriting version 3 in place makes Unmarshal refuse the token: "+uerr.Error(), rep)
+			}
+		}
+	}
+}
+
 // ---------- the two runners ----------
 
 func runHistories(res *Result, rng *RNG, tier string, outDir string, prop string) {
@@ -781,6 +843,7 @@ func runHistories(res *Result, rng *RNG, tier string, outDir string, prop string
 	var orcs []*oracle
 	var lines, descs []string
 	for h := 0; h < n; h++ {
+		sweepDefaults = h == 0
 		if h%shard == 0 {
 			orc = newOracle()
 			orcs = append(orcs, orc)
@@ -798,6 +861,14 @@ func runHistories(res *Result, rng *RNG, tier string, outDir string, prop string
 		res.Dist(fmt.Sprintf("blocks:%d", len(w.blocks)))
 		if h < 2 {
 			res.Sample(map[string]interface{}{"history": histString(ops), "outputs": strings.Join(outs, " ")})
+		}
+		// version gate: every block position x every unsupported declaration (incl. the field
+		// left out, which declares the schema default 0) must make Unmarshal refuse the token
+		if len(w.tokens) > 0 {
+			ti := r.Intn(len(w.tokens))
+			if bs, err := w.tokens[ti].Serialize(); err == nil && !w.tokForeign[ti] {
+				versionGate(res, bs, w.tokBase[ti], r, histString(ops))
+			}
 		}
 		// final observations for the model
 		toks := make([]string, len(w.tokens))
